@@ -21,15 +21,33 @@ def gen_case(rng, i):
     return g, VS.gen_skips(rng), tags, kind
 
 
+def exhaustive_small(types):
+    """Every graph of 1 or 2 non-handler steps whose accepted set (1-2 types) and returned set
+    (0-2 types) are drawn from `types`."""
+    import itertools
+    accs = [list(c) for k in (1, 2) for c in itertools.combinations(types, k)]
+    rets = [list(c) for k in (0, 1, 2) for c in itertools.combinations(types, k)]
+    one = [(a, r) for a in accs for r in rets]
+    for a, r in one:
+        yield [VS.mkstep(0, a, r)]
+    for (a, r), (a2, r2) in itertools.product(one, one):
+        yield [VS.mkstep(0, a, r), VS.mkstep(1, a2, r2)]
+
+
 def run(ctx, only=None):
     ctx.rule = ("step graphs of 0-10 steps over a pool of 23 real event classes (5 roots, subclasses, two "
                 "multiple-inheritance classes): structured well-formed workflows (chain/fan-out, human-in-the-"
                 "loop leg, scoped/wildcard handlers) perturbed by 0-2 of 22 mutations, plus unstructured random "
-                "graphs; workflow-level and per-step skip flags; distinct key = (multiset of step shapes, set of "
+                "graphs; workflow-level and per-step skip flags; thorough adds all 12 210 graphs of 1-2 plain steps over 4 "
+                "classes; distinct key = (multiset of step shapes, set of "
                 "kind masks, skips, outcome, stage/hitl)")
     ctx.prove()
     rng = random.Random(ctx.seed)
-    n = ctx.n(1500, 40000)
+    n = ctx.n(1500, 25000)
+    small = []
+    if ctx.tier == "thorough" and only is None:
+        # small-scope exhaustive stream: all 1- and 2-step graphs over {StartEvent, StopEvent, EvA, MyIR}
+        small = list(exhaustive_small([0, 1, VS.TID[VS.EvA], VS.TID[VS.MyIR]]))
     exprs, meta = [], []
     mon_fail = []
     stats = dict(accepted=0, rejected=0, hitl_true=0, hitl_subclass_true=0, unknown_stage=0,
@@ -37,10 +55,12 @@ def run(ctx, only=None):
                  class_ctor_rejected=0, skip_mattered=0, graph_unreachable=0, graph_dangling=0,
                  graph_dead_end=0, graph_multi=0)
     stages, tagc, kinds = {}, {}, {}
-    for i in range(n):
+    for i in range(n + len(small)):
         if only is not None:
             g, sk = only["graph"], tuple(only["skips"])
             tags, kind = set(), "replay"
+        elif i >= n:
+            g, sk, tags, kind = small[i - n], (False, False, False), set(), "exhaustive-small"
         else:
             g, sk, tags, kind = gen_case(rng, i)
         steps = VS.to_configs(g)
